@@ -112,7 +112,7 @@ class MDPPGenerator(Generator):
         # Sample probe locatins
         num_probe = torch.randint(
             self.num_probes_min,
-            self.num_probes_max,
+            max(self.num_probes_max, self.num_probes_min + 1),  # min == max: constant
             size=(*bs, 1),
         )
         probe = [torch.randperm(m * n)[:p] for p in num_probe]
